@@ -5,6 +5,7 @@ import (
 	"fmt"
 	"os"
 	"testing"
+	"time"
 
 	"github.com/ipld/go-storethehash/store"
 
@@ -40,6 +41,11 @@ type SuspCase struct {
 	PointGC    string `json:"point_gc,omitempty"`
 	NGC        int    `json:"n_gc,omitempty"`
 	PointFlush string `json:"point_flush,omitempty"`
+	// Shape 3: like shape 2, with a second Flush call: the first flush is
+	// suspended at PointFlush, a second Flush call runs as far as it gets,
+	// the first flush moves on to PointFlush2, the writer's calls complete,
+	// then everything completes.
+	PointFlush2 string `json:"point_flush2,omitempty"`
 }
 
 var suspGCPointsI = []string{"igc.file", "igc.reap.busyChecked", "igc.reap.mark", "igc.reap.truncate", "igc.free.scanned", "igc.header", "igc.unlink"}
@@ -172,6 +178,55 @@ func genSusp3(t *rapid.T) SuspCase {
 	return c
 }
 
+// genSusp4: shape 3 - two overlapping Flush calls and a writer between them.
+func genSusp4(t *rapid.T) SuspCase {
+	c := genSusp3(t)
+	c.Shape = 3
+	if len(c.Unflushed) == 0 {
+		c.Unflushed = []Op{{K: opPut, Key: rapid.IntRange(0, len(c.Keys)-1).Draw(t, "ukey0"), VLen: 5}}
+	}
+	// The first stop mostly where the first flush holds no lock (the second
+	// call can then run to its end), the second behind the index flush.
+	pts := append([]string{"flush.stamped"}, suspFlushPoints...)
+	i := []int{4, rapid.IntRange(0, len(pts)-2).Draw(t, "flpoint1")}[weighted(t, "fl1", []int{3, 1})]
+	j := []int{9, rapid.IntRange(i+1, len(pts)-1).Draw(t, "flpoint2")}[weighted(t, "fl2", []int{2, 1})]
+	if j <= i {
+		j = i + 1
+	}
+	c.PointFlush, c.PointFlush2 = pts[i], pts[j]
+	return c
+}
+
+// stagedPolicy runs one task at a time through a list of stages: task i up to
+// a point (or to its end, or until it waits for a lock).
+type stage struct {
+	task  int
+	point string
+}
+
+type stagedPolicy struct {
+	stages []stage
+	i      int
+}
+
+func (p *stagedPolicy) pick(c []*schedTask, step int) *schedTask {
+	for p.i < len(p.stages) {
+		sg := p.stages[p.i]
+		var t *schedTask
+		for _, x := range c {
+			if x.id == sg.task {
+				t = x
+			}
+		}
+		if t == nil || (sg.point != "" && t.point == sg.point) {
+			p.i++ // finished, waiting for a lock, or arrived
+			continue
+		}
+		return t
+	}
+	return c[0]
+}
+
 type suspState struct {
 	val     []byte
 	present bool
@@ -250,7 +305,7 @@ func runSusp2(c SuspCase, withFsck bool) (st suspStats, v *Violation) {
 	}
 	var img dirImage
 	snapped := false
-	if c.Shape == 2 {
+	if c.Shape == 2 || c.Shape == 3 {
 		// The state when the flush starts replaces everything before it: the
 		// flush completes before the crash, so what was acknowledged before it
 		// began must be durable.
@@ -273,10 +328,19 @@ func runSusp2(c SuspCase, withFsck bool) (st suspStats, v *Violation) {
 				st.overwrite = true
 			}
 		})
-		allDone := sch.run(singlePreemption{a: 0, point: c.PointFlush, n: 1, order: []int{1}}, 6000)
+		var pol policy = singlePreemption{a: 0, point: c.PointFlush, n: 1, order: []int{1}}
+		if c.Shape == 3 {
+			sch.spawn("flush2", func(yield func(string)) { s.Flush() })
+			pol = &stagedPolicy{stages: []stage{{0, c.PointFlush}, {2, ""}, {0, c.PointFlush2}, {1, ""}, {0, ""}, {2, ""}}}
+		}
+		allDone := sch.run(pol, 6000)
 		parkedThere := sch.tasks[0].hits[c.PointFlush] > 0
+		if c.Shape == 3 {
+			parkedThere = parkedThere && sch.tasks[0].hits[c.PointFlush2] > 0
+		}
 		late := sch.lateArrivals
 		sch.release()
+		sch.join(20 * time.Second)
 		sch.uninstall()
 		if allDone && parkedThere && !werr && late == 0 {
 			img = readDirImage(dir)
@@ -286,6 +350,9 @@ func runSusp2(c SuspCase, withFsck bool) (st suspStats, v *Violation) {
 			return st, nil
 		}
 		st.snapped = true
+		if c.Shape == 3 {
+			return suspRecover(c, st, img, allowed, "call-inside-overlapping-flushes@"+c.PointFlush+"+"+c.PointFlush2, withFsck, enc)
+		}
 		return suspRecover(c, st, img, allowed, "call-inside-suspended-flush@"+c.PointFlush, withFsck, enc)
 	}
 	sch := newScheduler()
@@ -313,6 +380,7 @@ func runSusp2(c SuspCase, withFsck bool) (st suspStats, v *Violation) {
 		}}
 	sch.run(pol, 6000)
 	sch.release()
+	sch.join(20 * time.Second)
 	sch.uninstall()
 	closeQuietly(s)
 	if img == nil {
@@ -380,6 +448,9 @@ func suspRecover(c SuspCase, st suspStats, img dirImage, allowedIn interface{}, 
 					if !found {
 						sym = "absent-but-durable"
 					}
+					if c.Shape == 3 {
+						return viol("recovery-"+sym+"|"+site+"|", 0, "key %d reads (%s, found=%v) after a crash that followed two overlapping Flush calls (the first suspended at %s while the second ran, then at %s while %d write call(s) completed; then both completed); the key had %d state(s) from the start of the first flush on, none of which this is", k, shortBytes(got), found, c.PointFlush, c.PointFlush2, len(c.Other), len(allowed[k]))
+					}
 					if c.Shape == 2 {
 						return viol("recovery-"+sym+"|"+site+"|", 0, "key %d reads (%s, found=%v) after a crash that followed a flush which had been suspended at %s while %d write call(s) completed and which then completed itself; the key had %d state(s) from the start of that flush on, none of which this is", k, shortBytes(got), found, c.PointFlush, len(c.Other), len(allowed[k]))
 					}
@@ -418,7 +489,7 @@ func suspRecover(c SuspCase, st suspStats, img dirImage, allowedIn interface{}, 
 }
 
 func runSusp(c SuspCase, withFsck bool) (st suspStats, v *Violation) {
-	if c.Shape == 1 || c.Shape == 2 {
+	if c.Shape >= 1 && c.Shape <= 3 {
 		return runSusp2(c, withFsck)
 	}
 	dir := newScratch("susp")
@@ -494,6 +565,7 @@ func runSusp(c SuspCase, withFsck bool) (st suspStats, v *Violation) {
 	}}
 	sch.run(pol, 4000)
 	sch.release()
+	sch.join(20 * time.Second)
 	sch.uninstall()
 	closeQuietly(s)
 	if img == nil {
@@ -601,11 +673,13 @@ func runSuspCampaign(t *testing.T, ev *Evidence, n int, withFsck bool, keep func
 			return
 		}
 		var c SuspCase
-		switch weighted(rt, "shape", []int{2, 2, 1}) {
+		switch weighted(rt, "shape", []int{2, 2, 1, 1}) {
 		case 1:
 			c = genSusp2(rt)
 		case 2:
 			c = genSusp3(rt)
+		case 3:
+			c = genSusp4(rt)
 		default:
 			c = genSusp(rt)
 		}
@@ -615,6 +689,8 @@ func runSuspCampaign(t *testing.T, ev *Evidence, n int, withFsck bool, keep func
 			cl = append(cl, "suspended-flush-behind-gc:image-taken@"+c.PointFlush)
 		} else if st.snapped && c.Shape == 2 {
 			cl = append(cl, "call-inside-suspended-flush:image-taken@"+c.PointFlush)
+		} else if st.snapped && c.Shape == 3 {
+			cl = append(cl, "call-inside-overlapping-flushes:image-taken@"+c.PointFlush+"+"+c.PointFlush2)
 		} else if st.snapped {
 			cl = append(cl, "suspended-call-crash:image-taken@"+c.Point)
 		}
